@@ -283,7 +283,8 @@ def _shape(ctx) -> None:
         want_h = ("ifexp", R.hh, first, None)
         ok_h = header[0] == "ifexp" and header[1] == R.hh and header[2] == first and _is_generated_names(it, header[3], R.all)
         if not ok_h:
-            hp.append(f"header is `{sh(header, 90)}`; expected the first record, or col_0.. for header-less input")
+            hp.append(f"header is `{sh(header, 90)}`; expected the first record, or col_0.. up to the length of the LONGEST record for "
+                      f"header-less input (the first record does not fix the width: its later fields would be dropped)")
     if rows is not None:
         if rows != ("ifexp", R.hh, rest, R.all):
             hp.append(f"data records are `{sh(rows, 90)}`; expected all records but the first with a header, all records without")
@@ -305,7 +306,8 @@ def _shape(ctx) -> None:
 
 
 def _is_generated_names(it, t, ALL) -> bool:
-    """[f'col_{i}' for i in range(len(ALL[0]))]"""
+    """[f'col_{i}' for i in range(<number of fields of the LONGEST record>)]: without a header no record fixes the width, and
+    "records shorter than the header are padded" must not turn into "fields beyond the first record's are dropped"."""
     from ..symx import NONE as SNONE
     from ..symx import const
     if t[0] != "obj" or it.objs[t[1]].kind != "listcomp":
@@ -318,10 +320,31 @@ def _is_generated_names(it, t, ALL) -> bool:
     if len(lps) != 1:
         return False
     lp = it.loops[lps[0]]
-    rng = lp.range is not None and lp.range[0] == const(0) and lp.range[2] == const(1) \
-        and lp.range[1] == ("call", ("name", "len"), (("sub", ALL, const(0)),), ())
+    rng = lp.range is not None and lp.range[0] == const(0) and lp.range[2] == const(1) and _is_max_width(it, lp.range[1], ALL)
     val = e.value == ("fstr", (const("col_"), ("fmt", ("idx", lp.id), -1, SNONE)))
     return bool(rng and val and e.conds == it.objs[t[1]].conds)
+
+
+def _is_max_width(it, b, ALL) -> bool:
+    """max(len(r) for r in ALL) / max([len(r) for r in ALL]) / max(map(len, ALL)), optionally with default=0"""
+    from ..symx import const, kw
+    if not (b[0] == "call" and b[1] == ("name", "max") and len(b[2]) == 1):
+        return False
+    if b[3] and not (len(b[3]) == 1 and kw(b, "default") == const(0)):
+        return False
+    g = b[2][0]
+    if g == ("call", ("name", "map"), (("name", "len"), ALL), ()):
+        return True
+    if g[0] == "obj" and it.objs[g[1]].kind in ("genexp", "listcomp"):
+        evs = [e for e in it.events if e.kind == "elem" and e.term == g]
+        if len(evs) != 1:
+            return False
+        e = evs[0]
+        lps = [L for L in e.loops if L not in it.objs[g[1]].loops]
+        if len(lps) != 1 or it.loops[lps[0]].iter != ALL or e.conds != it.objs[g[1]].conds:
+            return False
+        return e.value == ("call", ("name", "len"), (("elem", ALL, lps[0]),), ())
+    return False
 
 
 def _nodata(ctx) -> None:
@@ -375,6 +398,12 @@ def _nodata(ctx) -> None:
 
 _C = "csv"
 MUTANTS = [
+    dict(id="headerless-width-from-first-record", module=_C,
+         old="range(max(len(row) for row in all_rows))]", new="range(len(all_rows[0]))]", rules=["c.shape"],
+         desc="reverts fix 33a226e: '1\\n2,3\\n' without a header loses the 3"),
+    dict(id="twin-headerless-width-map", module=_C, twin=True,
+         old="range(max(len(row) for row in all_rows))]", new="range(max(map(len, all_rows)))]"),
+
     dict(id="path-objects-not-opened", module="csv", old="    if isinstance(file, (str, os.PathLike)):", new="    if isinstance(file, str):",
          rules=["a.lexing-delegated"], desc="the defect repaired by fix fe9aef7: read_csv(pathlib.Path(...)) raises TypeError"),
     dict(id="float-before-int", module=_C,
